@@ -49,6 +49,17 @@ CHECKS.update({
         note="trusted: RefAllowed reading (forbidden states may answer either documented error), gamma/alpha in vf/props/c16.py, TLC. Whole hours, fixed +1h zone.", design="5 C16"),
 })
 
+CHECKS.update({
+    "C18": dict(engine="UsedTzids",
+        technique="TLA+ state machine (uses x present VTIMEZONEs) fully explored by TLC with the action property Closure; every state replayed as an API-built and a parsed Calendar under both providers; random richer calendars validated by TLC",
+        text="The model's full graph (<=2/3 uses over known/unknown ids x 4 sites, 0..2 VTIMEZONEs per id) is explored; InvImpl ties the missing-set mirror to Ref (the pre-fix remove() mirror is refuted) and Closure states what add_missing_timezones must do; each state is replayed (queries, add_missing twice) and random calendars with more ids, deeper nesting and multi-valued properties are validated by Trace_UsedTzids.",
+        note="trusted: gamma (calendar construction per site) and alpha in vf/props/c18.py, TLC. The process-wide VTIMEZONE cache is emptied per case.", design="5 C18"),
+    "C20": dict(engine="ComponentTree",
+        technique="TLA+ spec of pre-order walk and multiset tree equivalence with Impl mirrors of __eq__; all trees/pairs up to a node bound model-checked; every tree and pair replayed on real components; copies/shuffles/perturbations of random deep trees validated by TLC",
+        text="TLC enumerates all trees (<=4/5 nodes) and all pairs (<=3/4 nodes), proves Equiv reflexive/symmetric/mirror-invariant/perturbation-sensitive and the post-fix __eq__ mirror equal to it (the pinned one is refuted); every tree is replayed for walk()/walk(name)/select/accessors/non-component equality, every pair for ==/!=; deepcopy, pickle and reparse copies of random typed trees are validated by Trace_ComponentTree under both providers.",
+        note="trusted: alpha (canonical serialisation of property maps) in vf/props/c20.py, TLC.", design="5 C20"),
+})
+
 NOT_YET = "not yet built in this round (specification and binding under construction; see DESIGN.md section 10)"
 
 
